@@ -32,12 +32,12 @@ from . import gen_geom
 from .core import canon_exc
 from .rat import frac
 
-GEOM_BUILDS = ["validate", "class", "json", "model_validate", "model_validate_json", "attributes", "int", "numpy",
-               "tuple", "copy", "deepcopy", "roundtrip"]
+GEOM_BUILDS = ["validate", "class", "json", "model_validate", "model_validate_json", "attributes", "attributes_nt", "int",
+               "numpy", "tuple", "copy", "deepcopy", "roundtrip", "subclass"]
 GEOM_CHANGES = ["assign", "assign_tuple", "assign_int", "copy_update", "deep_copy_update", "deepcopy_assign",
                 "copy_assign", "model_copy_assign", "inplace", "revalidate"]
 GEOM_DERIVES = ["copy_update", "deep_copy_update", "deepcopy_assign", "copy_assign", "model_copy_assign"]
-CLIP_HOWS = ["new", "same_uuid", "assign", "copy_update", "deep_copy_update", "copy_assign", "validate", "json"]
+CLIP_HOWS = ["new", "same_uuid", "assign", "copy_update", "deep_copy_update", "copy_assign", "validate", "json", "subclass"]
 CLIP_NUMS = ["float", "int", "numpy"]
 TOUCHES = ["compute_bounds", "compute_bounds_poison", "shapely", "repr", "dump", "dump_json", "eq", "deepcopy",
            "model_copy", "temporal_self", "in_clip_self"]
@@ -57,6 +57,17 @@ def _intish(x):
     return int(x) if float(x).is_integer() else x
 
 
+_SUB = {}
+
+
+def _subclass(cls):
+    if cls not in _SUB:
+        from typing import ClassVar
+        _SUB[cls] = type(cls.__name__, (cls,), {"__module__": __name__, "__annotations__": {"note": ClassVar[str]},
+                                                "note": "class-level attribute"})
+    return _SUB[cls]
+
+
 def build_geom(gj, how="validate"):
     """a geometry object carrying `gj`, through one of the construction paths of the data model"""
     from soundevent import data
@@ -72,6 +83,11 @@ def build_geom(gj, how="validate"):
         return cls.model_validate_json(json.dumps({"coordinates": c, "type": gj["type"]}))
     if how == "attributes":
         return data.geometry_validate(SimpleNamespace(type=gj["type"], coordinates=c), mode="attributes")
+    if how == "attributes_nt":          # an attributes object that is not a plain namespace
+        from collections import namedtuple
+        return data.geometry_validate(namedtuple("G", ["coordinates", "type"])(c, gj["type"]), mode="attributes")
+    if how == "subclass":               # a user's subclass of the geometry class (same type tag)
+        return _subclass(cls)(coordinates=c)
     if how == "int":
         return cls(coordinates=_conv(c, _intish))
     if how == "numpy":
@@ -173,6 +189,8 @@ def build_clip(step, old=None):
     kw = {}
     if how == "same_uuid" or step.get("uuid") is not None:
         kw["uuid"] = _uuid(step.get("uuid") or 0)
+    if how == "subclass":
+        return _subclass(data.Clip)(recording=recording(), start_time=s, end_time=e, **kw)
     if how == "validate":
         return data.Clip.model_validate({"recording": recording(), "start_time": s, "end_time": e, **kw})
     if how == "json":
@@ -241,6 +259,16 @@ def threshold_call(a, r, form):
     return [], {k: v for k, v in ((A, a), (R, r)) if v is not None}
 
 
+_NT = []
+
+
+def _interval_nt():
+    if not _NT:
+        from collections import namedtuple
+        _NT.append(namedtuple("Interval", ["start", "stop"]))
+    return _NT[0]
+
+
 def _box(vals, how):
     if how == "list":
         return list(vals)
@@ -248,8 +276,7 @@ def _box(vals, how):
         import numpy as np
         return np.array(vals, dtype=float)
     if how == "namedtuple":
-        from collections import namedtuple
-        return namedtuple("Interval", ["start", "stop"])(*vals)
+        return _interval_nt()(*vals)
     return tuple(vals)
 
 
